@@ -20,6 +20,7 @@ type extState struct {
 	// C09
 	verifies map[uint64]*verifyOp // by call id
 	verByInst map[instKey][]*verifyOp
+	recent    map[instKey][]recentAck
 
 	// C13
 	leaseCuts []*leaseCut
@@ -52,6 +53,8 @@ type verifyOp struct {
 	stale  map[string]bool // ... whose request had left before the call was made
 	nonvoterAcks int
 	started bool
+	startSeq uint64
+	preTerm uint64
 }
 
 type leaseCut struct {
@@ -78,6 +81,7 @@ type pvIso struct {
 	leaderAtHeal string
 	termAtHeal   uint64
 	clusterTermAtHeal uint64
+	eligible, checked bool
 }
 
 func (x *extState) init() {
@@ -85,6 +89,7 @@ func (x *extState) init() {
 	x.pendingRestore = map[instKey]*restoreOp{}
 	x.verifies = map[uint64]*verifyOp{}
 	x.verByInst = map[instKey][]*verifyOp{}
+	x.recent = map[instKey][]recentAck{}
 	x.pvIso = map[string]*pvIso{}
 }
 
@@ -222,7 +227,11 @@ func (x *extState) resp(c *checker, r *rpcRec, e *sim.Ev)                       
 func (x *extState) term(c *checker, s *server, key instKey, old, nw uint64, e *sim.Ev)    { x.pvTerm(c, s, key, old, nw, e) }
 func (x *extState) installApplied(c *checker, s *server, key instKey, old, nw uint64, e *sim.Ev) {}
 func (x *extState) leaderCommit(c *checker, s *server, key instKey, e *sim.Ev)            {}
-func (x *extState) read(c *checker, s *server, e *sim.Ev)                                 {}
+func (x *extState) read(c *checker, s *server, e *sim.Ev) {
+	if e.X == "pv-after" {
+		x.pvRead(c, s, e)
+	}
+}
 
 func (x *extState) state(c *checker, s *server, key instKey, old, nw int, term uint64, e *sim.Ev) {
 	if old == Leader && nw != Leader {
@@ -257,6 +266,7 @@ func (x *extState) invoke(c *checker, cl *call, e *sim.Ev) {
 		v := &verifyOp{call: cl, key: cl.inst, acks: map[string]bool{}, stale: map[string]bool{}}
 		x.verifies[cl.id] = v
 		x.verByInst[cl.inst] = append(x.verByInst[cl.inst], v)
+		x.acksAtInstant(v)
 	}
 }
 
